@@ -11,7 +11,8 @@ CLAIMS = {
  'C15': dict(cat='proof', ref='DESIGN 5 C15, 3.1',
    text="Lean theorems (every input of the documented domain, both build modes) about the scalar kernels as translated from the Rust source on every run: "
         "partial/full reduction, mod+-, Montgomery reduction, Power2Round, Decompose/HighBits/LowBits, MakeHint, UseHint, CoeffFromThreeBytes, CoeffFromHalfByte "
-        "equal the FIPS 204 definitions. partial_reduce64 is proved for |x| <= 67_000_000 (partial; the remaining slice is swept exhaustively on every run).",
+        "equal the FIPS 204 definitions; partial_reduce64 (on its caller's shape) is congruent and inside (-2q, 2q) on its whole documented domain - the two top slices, where a*M comes within 119 units of i64 overflow, "
+        "by kernel evaluation of every value (decide +kernel, no extra axiom).",
    note=TB + "Spec/Arith.lean = FIPS 204 Algorithms 14, 15, 35-40, 49.",
    tech="Lean 4 proof over translated kernels (omega, interval case split); translator tie; exhaustive/strided differential sweeps against the crate and a big-integer oracle"),
  'C07': dict(cat='proof', ref='DESIGN 5 C07',
